@@ -295,6 +295,7 @@ def c11_3(ctx):
         ctx.ob(R, "to_clvm:" + ty, ok, "encode_number(&self.to_be_bytes(), *self < 0)", found=found, where=f[0].sp)
     ctx.floor(R, "integer impl pairs", n, 12)
     c11_3_sign_tests(ctx)
+    c11_4_bigint(ctx)
     # encode_number / decode_number literal inventory (pad bytes by sign, sign mask, padding cap)
     for fn_, want in (("clvm_traits::int_encoding::encode_number", {0xFF, 0x00, 0x80}),
                       ("clvm_traits::int_encoding::decode_number", {0xFF, 0x00, 0x80, 64})):
@@ -373,3 +374,40 @@ def c11_3_sign_tests(ctx):
     ok = len(ne) == 1 and not b.reachable_avoiding(ne[0], b.ok_exits(), []) if ne else False
     ctx.ob(R, "decode_number:sign-agreement", bool(ne) and ok, "a value whose sign changes when the padding is removed is rejected",
            where=b.fn.sp)
+
+
+def c11_4_bigint(ctx):
+    """the provided ClvmEncoder::encode_bigint (used by every encoder that does not override it, e.g. the hash-only
+    TreeHasher) produces the interpreter's form: it starts from the *two's-complement* big-endian bytes of the number
+    (to_signed_bytes_be -- not sign+magnitude), removes a leading 0x00 only while the next byte's top bit is clear (and the
+    slice has more than one byte... down to the empty atom for zero), and hands exactly that slice to encode_atom.
+    The Allocator override is new_number (the interpreter itself)."""
+    R = "C11.4"
+    b = U.body(ctx, R, "clvm_traits::clvm_encoder::ClvmEncoder::encode_bigint")
+    if b:
+        calls_ = [(U.flat(n).split("::")[-1], [str(apnf.N(b.operand_term(a))) for a in t["args"]]) for bi, n, t in b.calls()]
+        names = [c[0] for c in calls_]
+        src_ok = names.count("to_signed_bytes_be") == 1 and not any(x in names for x in ("to_bytes_be", "to_bytes_le", "to_signed_bytes_le", "magnitude", "encode_number"))
+        sl = b.local_named("slice")
+        defs_ok = False
+        if sl:
+            ds = set()
+            for d in b.defs().get(sl[0], []):
+                ds.add(str(apnf.N(b.rvalue_term(d[3]["rv"]))) if d[0] == "s" else str(apnf.N(b.call_term(d[3]))))
+            defs_ok = ds == {"('Vec::as_slice', ('BigInt::to_signed_bytes_be', 'number'))", "('index', 'var:slice', ('RangeFrom::RangeFrom', 1))"}
+        enc = [c for c in calls_ if c[0] == "encode_atom"]
+        out_ok = len(enc) == 1 and enc[0][1][1] == "('Atom::Borrowed', 'var:slice')"
+        conds = set()
+        for node in b.edge_info:
+            if b.edge_info[node][0] in b.reach:
+                t, lab = b.edge_condition(node)
+                conds.add(str(apnf.N(t)))
+        cond_ok = conds == {"('is_empty', 'var:slice')", "('Eq', ('[]', 'var:slice', 0), 0)", "('Gt', ('len', 'var:slice'), 1)",
+                            "('Eq', ('BitAnd', ('[]', 'var:slice', 1), 128), 128)"}
+        ctx.ob(R, "default-encode_bigint", src_ok and defs_ok and out_ok and cond_ok,
+               "default encode_bigint = strip redundant leading 0x00 from to_signed_bytes_be(number) and encode that slice",
+               found={"calls": names, "slice-defs": defs_ok, "conds": sorted(conds)}, where=b.fn.sp)
+    ob = U.body(ctx, R, "<clvmr::allocator::Allocator as clvm_traits::clvm_encoder::ClvmEncoder>::encode_bigint")
+    if ob:
+        names = [U.flat(n).split("::")[-1] for bi, n, t in ob.calls()]
+        ctx.ob(R, "allocator-encode_bigint", "new_number" in names, "the Allocator encoder delegates big integers to Allocator::new_number", found=names)
